@@ -13,165 +13,12 @@ from hypothesis import strategies as st
 
 from vf.detsched import DONE, SimAbort, cur
 
-from .streamlib import CustomError, CustomError2
 
-LOG = []  # ('single'|'batch', tag, worker_index, vtime, arg_summary)  - thread workers only
-
-
-class InitError(Exception):
-    pass
-
-
-EXCS = {'ValueError': ValueError, 'KeyError': KeyError, 'CustomError': CustomError, 'CustomError2': CustomError2, 'ZeroDivisionError': ZeroDivisionError}
-EXC_NAMES = list(EXCS)
-
-
-def make_exc(name, *args):
-    if name == 'CustomError2':
-        return CustomError2(args[0], args[1:] if len(args) > 1 else 'b')
-    return EXCS[name](*args)
-
-
-def exc_norm(e):
-    if type(e).__name__ == 'EnsembleError':
-        return ['EnsembleError', '...']  # nested ensemble errors: membership details are schedule-dependent
-    if isinstance(e, CustomError2):
-        return ['CustomError2', [e.args[0], *(e.args[1] if isinstance(e.args[1], tuple) else [e.args[1]])]]
-    return [type(e).__name__, tn(list(e.args))]
-
-
-def tn(x):
-    if isinstance(x, (list, tuple)):
-        return [tn(v) for v in x]
-    return x
-
-
-def tb_text(e):
-    import traceback
-
-    from mpservice.multiprocessing.remote_exception import get_remote_traceback, is_remote_exception
-
-    try:
-        txt = ''.join(traceback.format_exception(type(e), e, e.__traceback__))
-    except Exception as ee:  # pragma: no cover
-        txt = f'<format failed: {ee!r}>'
-    try:
-        if is_remote_exception(e):
-            txt += '\n[remote]\n' + get_remote_traceback(e)
-    except Exception:
-        pass
-    return txt
-
-
-def strip_tb(e, depth=0):
-    if e is None or depth > 6:
-        return
-    try:
-        e.__traceback__ = None
-    except Exception:
-        pass
-    strip_tb(getattr(e, '__cause__', None), depth + 1)
-    strip_tb(getattr(e, '__context__', None), depth + 1)
-
-
-def is_value(x):
-    return isinstance(x, tuple) and len(x) == 4 and x[0] == 'V'
-
-
-def unpack(x):
-    """returns (rid, plan, trace) of a value or of an ensemble output list"""
-    from mpservice.multiprocessing.remote_exception import RemoteException
-
-    if is_value(x):
-        return x[1], x[2], x[3]
-    if isinstance(x, list):
-        rid = plan = None
-        traces = []
-        for m in x:
-            if is_value(m) or isinstance(m, list):
-                r, p, t = unpack(m)
-                if rid is None:
-                    rid, plan = r, p
-                traces.append(('M', r, t))
-            elif isinstance(m, RemoteException):
-                traces.append(('ERR', exc_norm(m.exc)))
-            elif isinstance(m, BaseException):
-                traces.append(('ERR', exc_norm(m)))
-            else:
-                traces.append(('??', repr(m)))
-        return rid, plan, ('ENS', tuple(traces))
-    raise TypeError(f'worker received a malformed input: {x!r}')
-
-
-def make_worker_cls():
-    from mpservice.mpserver import Worker
-
-    class W(Worker):
-        def __init__(self, *, tag, pre=False, init_fail=None, nst=0, **kw):
-            super().__init__(**kw)
-            if init_fail is not None and self.worker_index == init_fail:
-                raise InitError(tag, self.worker_index)
-            self.tag = tag
-            if pre:
-                self.preprocess = self._pre
-            self.num_stream_threads = nst
-
-        def _pre(self, x):
-            rid, plan, trace = unpack(x)
-            name = plan.get('pf', {}).get(self.tag)
-            if name:
-                raise make_exc(name, 'pre', self.tag, rid)
-            return x
-
-        def _one(self, x):
-            rid, plan, trace = unpack(x)
-            return ('V', rid, plan, (self.tag, rid, trace))
-
-        def call(self, x):
-            tag = self.tag
-            if self.batch_size > 0:
-                summary = []
-                genuine = isinstance(x, list)
-                if genuine:
-                    for v in x:
-                        try:
-                            summary.append(unpack(v)[0])
-                        except Exception:
-                            summary.append(('BAD', type(v).__name__))
-                LOG.append(('batch', tag, self.worker_index, time.monotonic(), summary if genuine else ('NOTLIST', type(x).__name__)))
-                ups = [unpack(v) for v in x]
-                d = max([p.get('d', {}).get(tag, 0.0) for _, p, _ in ups] or [0.0])
-                if d > 0:
-                    time.sleep(d)
-                for rid, p, _ in ups:
-                    name = p.get('f', {}).get(tag)
-                    if name:
-                        raise make_exc(name, tag, rid)
-                return [self._one(v) for v in x]
-            try:
-                rid, plan, trace = unpack(x)
-            except Exception:
-                LOG.append(('single', tag, self.worker_index, time.monotonic(), ('BAD', type(x).__name__)))
-                raise
-            LOG.append(('single', tag, self.worker_index, time.monotonic(), rid))
-            d = plan.get('d', {}).get(tag, 0.0)
-            if d > 0:
-                time.sleep(d)
-            name = plan.get('f', {}).get(tag)
-            if name:
-                raise make_exc(name, tag, rid)
-            return self._one(x)
-
-    return W
-
-
-_W = [None]
+from .workers import LOG, EXCS, EXC_NAMES, InitError, W, exc_norm, is_value, make_exc, strip_tb, tb_text, tn, unpack  # noqa: F401
 
 
 def worker_cls():
-    if _W[0] is None:
-        _W[0] = make_worker_cls()
-    return _W[0]
+    return W
 
 
 def build_servlet(node, servlet_kind='thread'):
@@ -185,9 +32,7 @@ def build_servlet(node, servlet_kind='thread'):
             if node['bs'] > 1 and node.get('bw') is not None:
                 kw['batch_wait_time'] = node['bw']
         if node.get('proc'):
-            from . import targets
-
-            return ProcessServlet(targets.PW, cpus=node.get('n', 1), **kw)
+            return ProcessServlet(W, cpus=node.get('n', 1), **kw)
         return ThreadServlet(worker_cls(), num_threads=node.get('n', 1), **kw)
     ch = [build_servlet(c) for c in node['ch']]
     if t == 'seq':
@@ -432,7 +277,7 @@ def total_service_time(tree, plan):
     return sum(plan.get('d', {}).values()) + sum((n.get('bw') or 0) for n in tree_tags(tree)) + 0.05
 
 
-def run_server(spec, *, lines=False, horizon=20000.0, max_steps=800_000, max_stall=0.0, stall_budget=0.0, alloc=None, async_mode=False, probes=0, cycles=1):
+def run_server(spec, *, lines=False, horizon=20000.0, max_steps=800_000, max_stall=0.0, stall_budget=0.0, alloc=None, async_mode=False, probes=0, cycles=1, strip=True):
     """spec: {tree, capacity, reqs: {rid: plan}, callers: [[step...]], streams: [{rids:[...], abandon: k|None, timeout}], sched}
     step = {'rid', 'timeout': float|'long', 'bp': bool, 'think': float}
     Returns Obs with everything the per-property oracles need."""
@@ -492,7 +337,8 @@ def run_server(spec, *, lines=False, horizon=20000.0, max_steps=800_000, max_sta
             # keep the traceback as text, then drop frame references like a real caller that has handled the error
             # (frames keep the request's Future alive, which would hide identity recycling)
             rec['tb_text'] = tb_text(rec['payload'])
-            strip_tb(rec['payload'])
+            if strip:
+                strip_tb(rec['payload'])
         rec_list.append(rec)
 
     def caller(server, script, rec_list):
@@ -606,4 +452,72 @@ def run_server(spec, *, lines=False, horizon=20000.0, max_steps=800_000, max_sta
                 pass
     obs.out = out
     obs.log = list(LOG)
+    return obs
+
+
+def run_server_real(spec):
+    """the same scenario with real threads / real processes (ProcessServlet members); no schedule control, no monitors"""
+    from mpservice import TimeoutError as MpTimeoutError
+    from mpservice.mpserver import Server, ServerBacklogFull
+
+    tree = spec['tree']
+    reqs = {int(k): v for k, v in spec['reqs'].items()}
+    obs = Obs()
+    obs.calls, obs.streams, obs.log = [], [], []
+    obs.enter_exc = obs.exit_exc = None
+    obs.max_backlog = 0
+
+    def value(rid):
+        return ('V', rid, reqs[rid], ())
+
+    server = Server(build_servlet(tree), capacity=spec['capacity'])
+    try:
+        server.__enter__()
+    except BaseException as e:
+        obs.enter_exc = e
+        return obs
+    try:
+        def caller(script):
+            for step in script:
+                rid = step['rid']
+                rec = {'rid': rid, 'timeout': step['timeout'], 'bp': step['bp'], 't0': time.monotonic(), 'backlog_before': server.backlog}
+                try:
+                    y = server.call(value(rid), timeout=120 if step['timeout'] == 'long' else step['timeout'], backpressure=step['bp'])
+                    rec['kind'], rec['payload'] = 'value', y
+                except ServerBacklogFull as e:
+                    rec['kind'], rec['payload'] = 'backlogfull', e
+                except MpTimeoutError as e:
+                    rec['kind'], rec['payload'] = 'timeout', e
+                except BaseException as e:
+                    rec['kind'], rec['payload'] = 'exc', e
+                rec['t1'] = time.monotonic()
+                if isinstance(rec['payload'], BaseException):
+                    rec['tb_text'] = tb_text(rec['payload'])
+                obs.calls.append(rec)
+
+        def streamer(sspec, srec):
+            srec['items'] = []
+            srec['t0'] = time.monotonic()
+            try:
+                for x, y in server.stream([value(r) for r in sspec['rids']], return_x=True, return_exceptions=True, timeout=120):
+                    srec['items'].append((x, y))
+                srec['term'] = 'end'
+            except BaseException as e:
+                srec['term'] = ('exc', e)
+            srec['t1'] = time.monotonic()
+
+        ths = [threading.Thread(target=caller, args=(sc,)) for sc in spec['callers']]
+        for sspec in spec.get('streams', []):
+            srec = {'spec': sspec}
+            obs.streams.append(srec)
+            ths.append(threading.Thread(target=streamer, args=(sspec, srec)))
+        for t in ths:
+            t.start()
+        for t in ths:
+            t.join()
+    finally:
+        try:
+            server.__exit__(None, None, None)
+        except BaseException as e:
+            obs.exit_exc = e
     return obs
